@@ -1,5 +1,6 @@
 SPECIFICATION Spec
 CONSTANTS
+  MaxWrap = 3
   OptionalPlain = TRUE
 INVARIANTS Transparent PlainAgrees FromIterAgrees Sound
 CHECK_DEADLOCK FALSE
